@@ -7,6 +7,8 @@ CONSTANTS
   AllowWAL = FALSE
   FinModes = {"DELETE", "TRUNCATE", "PERSIST"}
   AllowSpill = TRUE
+  AllowBeyond = FALSE
+  FixBeyond = TRUE
   AllowNoSync = TRUE
   FixOOB = TRUE
   FixFirstRb = TRUE
